@@ -645,7 +645,9 @@ class SpectralDensity(DFunction, UnitsManaged):
         newpars = []
         for prms in self.params:
             
-            #params = self.params.copy()
+            # the parameters of this object (possibly shared with the
+            # correlation function it was made from) are left as they are
+            prms = prms.copy()
             if temperature is not None:
                 prms["T"] = temperature
     
